@@ -577,10 +577,23 @@ class FixedArray
         }
 
         size_t len = match_dimension(mask);
-        if ((size_t)data.len() == len)
+
+        // The source may be a masked reference or an alias of this array
+        // (a[m1] = a[m2]): like a Python sequence, read all of it before
+        // writing any of it.
+        const size_t dataLen = data.len();
+        boost::shared_array<T> copy;
+        if (dataLen > 0 && sharesStorageWith (data))
+        {
+            copy.reset (new T[dataLen]);
+            for (size_t i=0; i<dataLen; ++i)
+                copy[i] = data[i];
+        }
+
+        if (dataLen == len)
         {
             for (size_t i = 0; i < len; ++i)
-                if (mask[i]) _ptr[i*_stride] = data[i];
+                if (mask[i]) _ptr[i*_stride] = copy ? copy[i] : T (data[i]);
         }
         else
         {
@@ -597,7 +610,7 @@ class FixedArray
             {
                 if (mask[i])
                 {
-                    _ptr[i*_stride] = data[dataIndex];
+                    _ptr[i*_stride] = copy ? copy[dataIndex] : T (data[dataIndex]);
                     dataIndex++;
                 }
             }
